@@ -16,7 +16,8 @@ func pathMatch(pat, name string) (bool, error) { return filepath.Match(pat, name
 // by directory level, each level's names sorted as strings.
 func sortByComponents(names []string) {
 	sort.Slice(names, func(i, j int) bool {
-		a, b := strings.Split(names[i], "/"), strings.Split(names[j], "/")
+		// ("~s~" stands for a space in the line protocol: order the real names)
+		a, b := strings.Split(strings.ReplaceAll(names[i], "~s~", " "), "/"), strings.Split(strings.ReplaceAll(names[j], "~s~", " "), "/")
 		for k := 0; k < len(a) && k < len(b); k++ {
 			if a[k] != b[k] {
 				return a[k] < b[k]
@@ -597,7 +598,8 @@ func genRemoteCase(r *Rng) []Op {
 	ops := []Op{{"reset", false}}
 	ops = g.writeFile(ops, "src/a.wsp", g.lay, 1+r.Intn(3))
 	// a name that needs query escaping
-	odd := "src/" + []string{"x+y.wsp", "p&q=r.wsp", "50%.wsp", "a#b.wsp", "semi;colon.wsp", "sp@ce~.wsp"}[r.Intn(6)]
+	odd := "src/" + []string{"x+y.wsp", "p&q=r.wsp", "50%.wsp", "a#b.wsp", "semi;colon.wsp", "sp@ce~.wsp",
+		"two~s~words.wsp", "a~s~~s~b.wsp"}[r.Intn(8)] // (~s~ is a space: see ImplCmd.Exec)
 	ops = g.writeFile(ops, odd, g.lay, 1)
 	ops = g.writeFile(ops, "src/it/f0.wsp", g.lay, 1+r.Intn(2))
 	ops = g.writeFile(ops, "src/it/f1.wsp", g.lay, 1+r.Intn(2))
@@ -700,9 +702,36 @@ func genLoudCase(r *Rng) []Op {
 		srcBad = true
 	}
 	ops = g.writeFile(ops, "src/it/f0.wsp", g.lay, 1)
+	damagedWin := ""
 	if r.Chance(1, 6) {
 		// corrupt source
-		ops = append(ops, Op{"use src/a.wsp", false}, Op{"setdisk " + randHex(r, 1+r.Intn(60)), false})
+		if r.Bool() {
+			ops = append(ops, Op{"use src/a.wsp", false}, Op{"setdisk " + randHex(r, 1+r.Intn(60)), false})
+		} else {
+			// a header that validates and an archive whose first slot — the base interval — holds a
+			// time that is not on the archive's grid, read with degenerate windows around it
+			var as []rawArch
+			for i := range g.lay.Steps {
+				as = append(as, rawArch{int64(g.lay.Steps[i]), int64(g.lay.Ns[i])})
+			}
+			hb := headerBytesFor(as, uint32(g.agg), g.xff, uint32(len(as)), false)
+			file := append(append([]byte{}, hb...), make([]byte, g.lay.FileSize()-len(hb))...)
+			k := r.Intn(g.lay.K())
+			off := len(hb)
+			for i := 0; i < k; i++ {
+				off += 12 * g.lay.Ns[i]
+			}
+			st := g.lay.Steps[k]
+			base := g.now - r.Intn(st*g.lay.Ns[k]+1)
+			if st > 1 && base%st == 0 {
+				base++
+			}
+			copy(file[off:], be32b(uint32(base)))
+			copy(file[off+4:], []byte{0x40, 0x08, 0, 0, 0, 0, 0, 0})
+			ops = append(ops, Op{"use src/a.wsp", false}, Op{"setdisk " + hx(file), false})
+			t := base - base%st + []int{-st, 0, st}[r.Intn(3)] + r.Intn(st)
+			damagedWin = fmt.Sprintf("archive=%d from=%d until=%d", []int{-1, k}[r.Intn(2)], t, t)
+		}
 		srcBad = true
 	}
 	dstThere := false
@@ -719,6 +748,9 @@ func genLoudCase(r *Rng) []Op {
 	// no archive goes only with files that are all there
 	wAny, wAll := g.win(), g.winAll()
 	pick := func(allThere bool) string {
+		if damagedWin != "" && r.Bool() {
+			return damagedWin
+		}
 		if allThere {
 			return wAny
 		}
